@@ -129,15 +129,25 @@ func acquireLock(lockPath string) (*os.File, error) {
 		return nil, fmt.Errorf("failed to create lock directory: %w", err)
 	}
 
-	lockFile, err := os.OpenFile(lockPath, os.O_CREATE|os.O_WRONLY, 0644)
-	if err != nil {
-		return nil, fmt.Errorf("failed to create lock file: %w", err)
-	}
-	if err := syscall.Flock(int(lockFile.Fd()), syscall.LOCK_EX); err != nil {
+	for {
+		lockFile, err := os.OpenFile(lockPath, os.O_CREATE|os.O_WRONLY, 0644)
+		if err != nil {
+			return nil, fmt.Errorf("failed to create lock file: %w", err)
+		}
+		if err := syscall.Flock(int(lockFile.Fd()), syscall.LOCK_EX); err != nil {
+			lockFile.Close()
+			return nil, fmt.Errorf("failed to acquire lock: %w", err)
+		}
+		// The previous holder removes the lock file when it is done. If that happened
+		// while we were waiting, we now hold a lock on an unlinked file that nobody
+		// else can see: start over with the file that is at lockPath now.
+		held, err1 := lockFile.Stat()
+		current, err2 := os.Stat(lockPath)
+		if err1 == nil && err2 == nil && os.SameFile(held, current) {
+			return lockFile, nil
+		}
 		lockFile.Close()
-		return nil, fmt.Errorf("failed to acquire lock: %w", err)
 	}
-	return lockFile, nil
 }
 
 // releaseLock unlocks and removes the lock file
@@ -146,9 +156,11 @@ func releaseLock(lockFile *os.File) error {
 		return nil
 	}
 	lockPath := lockFile.Name()
+	// Remove the file while the lock is still held, so that a waiter that gets the
+	// lock next can tell (see acquireLock) that its file is no longer the lock file.
+	os.Remove(lockPath)
 	syscall.Flock(int(lockFile.Fd()), syscall.LOCK_UN)
 	lockFile.Close()
-	os.Remove(lockPath)
 	return nil
 }
 
